@@ -38,6 +38,12 @@ if TYPE_CHECKING:
 logger = logging.getLogger(__name__)
 
 
+# How often a lost version race against a NON-claim write is retried in-handler
+# before the handler gives up: a still unclaimed stage gets its StartStage
+# re-queued; a claimed but unplanned stage re-raises (the processor redelivers).
+_CLAIM_RETRY_LIMIT = 5
+
+
 class _ClaimBlockedError(Exception):
     """Raised inside the claim transaction when a mutex or deferred-choice
     claim is held by another live stage; rolls the transaction back."""
@@ -249,6 +255,7 @@ class StartStageHandler(
         self,
         stage: StageExecution,
         message: StartStage,
+        _claim_retry: int = 0,
     ) -> None:
         """Start the stage if it's ready to run."""
         # Check if already processed
@@ -467,14 +474,43 @@ class StartStageHandler(
                     )
             return
         except ConcurrencyError:
-            # Another handler already claimed this stage (race condition with
-            # multiple upstream stages completing simultaneously). This is safe
-            # to ignore - the stage is already being processed.
-            logger.debug(
-                "Ignoring duplicate StartStage for %s (concurrent claim)",
-                stage.name,
-            )
+            # The version CAS failed. That only proves that SOMEBODY wrote the
+            # row, not that another handler claimed the stage: a non-claim write
+            # (persistent-signal buffering, join tracking of a sibling upstream's
+            # CompleteStage) bumps the version too. Swallowing the error in that
+            # case consumes the StartStage while the stage stays unclaimed and
+            # nothing re-queues it. Re-read: only when the row left the phase we
+            # expected is this a duplicate claim.
+            fresh = self.repository.retrieve_stage(stage.id)
+            if fresh.status.name != claim_expected_phase:
+                logger.debug(
+                    "Ignoring duplicate StartStage for %s (concurrent claim)",
+                    stage.name,
+                )
+                return
+            if _claim_retry >= _CLAIM_RETRY_LIMIT:
+                # Still unclaimed and still contended: re-queue the StartStage
+                # instead of dropping it.
+                retry_count = getattr(message, "retry_count", 0) or 0
+                self.queue.push(
+                    StartStage(
+                        execution_type=message.execution_type,
+                        execution_id=message.execution_id,
+                        stage_id=message.stage_id,
+                        retry_count=retry_count + 1,
+                    ),
+                    self.retry_delay,
+                )
+                return
+            if fresh.context.get("_jump_bypass"):
+                del fresh.context["_jump_bypass"]
+            self._start_if_ready(fresh, message, _claim_retry + 1)
             return
+
+        # What the claim commit persisted: the base for merging foreign context
+        # writes if the plan commit below loses a version race.
+        claimed_context = dict(stage.context)
+        had_tasks_at_claim = len(stage.tasks) > 0
 
         # WCP-16: Deferred choice - cancel sibling stages in the same group
         if stage.deferred_choice_group:
@@ -505,28 +541,54 @@ class StartStageHandler(
         messages_to_push = self._collect_start_messages(stage, message)
 
         # Atomic: store planned stage + push all start messages together
-        try:
-            with self.repository.transaction(self.queue) as txn:
-                txn.store_stage(stage)
+        plan_attempt = 0
+        while True:
+            try:
+                with self.repository.transaction(self.queue) as txn:
+                    txn.store_stage(stage)
 
-                # Message deduplication
-                if message.message_id:
-                    txn.mark_message_processed(
-                        message_id=message.message_id,
-                        handler_type="StartStage",
-                        execution_id=message.execution_id,
+                    # Message deduplication
+                    if message.message_id:
+                        txn.mark_message_processed(
+                            message_id=message.message_id,
+                            handler_type="StartStage",
+                            execution_id=message.execution_id,
+                        )
+
+                    for msg in messages_to_push:
+                        txn.push_message(msg)
+                break
+            except ConcurrencyError:
+                # We hold the claim, but a non-claim write (signal buffering,
+                # join tracking) bumped the row between our claim commit and this
+                # commit. Returning here would leave the stage RUNNING with no
+                # start message ever pushed. Re-read; unless somebody else took
+                # the stage over (zombie re-plan persisted tasks, or the stage
+                # left RUNNING), merge the foreign context changes and retry on
+                # the fresh version.
+                fresh = self.repository.retrieve_stage(stage.id)
+                taken_over = fresh.status != WorkflowStatus.RUNNING or (not had_tasks_at_claim and len(fresh.tasks) > 0)
+                if taken_over:
+                    logger.warning(
+                        "Stage %s was taken over after claiming (now %s); dropping this plan",
+                        stage.name,
+                        fresh.status,
                     )
-
-                for msg in messages_to_push:
-                    txn.push_message(msg)
-        except ConcurrencyError:
-            # This shouldn't happen since we already claimed the stage,
-            # but handle it gracefully just in case.
-            logger.warning(
-                "Unexpected ConcurrencyError after claiming stage %s",
-                stage.name,
-            )
-            return
+                    return
+                plan_attempt += 1
+                if plan_attempt > _CLAIM_RETRY_LIMIT:
+                    raise
+                for key, value in fresh.context.items():
+                    if key not in claimed_context or claimed_context[key] != value:
+                        stage.context[key] = value
+                claimed_context = dict(fresh.context)
+                stage.version = fresh.version
+                # store_stage() re-writes every task row under its own version
+                # CAS, and so did the foreign writer: adopt the fresh versions.
+                fresh_task_versions = {t.id: t.version for t in fresh.tasks}
+                for task in stage.tasks:
+                    if task.id in fresh_task_versions:
+                        task.version = fresh_task_versions[task.id]
 
         logger.info("Started stage %s (%s)", stage.name, stage.id)
 
